@@ -6,7 +6,7 @@
      O <tid> <off>*               offset_to_position, both:   l,c:l,c  or E:E  per offset
      H <op>;<op>;...              history with analyse = identity.  ops:
                                     o <u> <tid> | c <u> <tid>* | x <u> | r <k> <u> <line> <ch>
-                                  answer: <conformant> <single_change> | out;out;...   outs:
+                                  answer: <conformant> | out;out;...   outs:
                                     P <u> <tid> | A <k> <u> <tid> @ <off> | A <k> <u> <tid> W sl sc el ec | S | C
    Texts in outputs are named by the id under which they were defined (the model returns the text). *)
 open Lsp_model
@@ -85,7 +85,7 @@ let () =
         | 'H' ->
             let h = List.map parse_op (List.filter (fun s -> String.trim s <> "") (String.split_on_char ';' rest)) in
             let outs = run (fun t -> t) [] h in
-            Printf.printf "%d %d | %s\n" (if conformant h then 1 else 0) (if single_change h then 1 else 0)
+            Printf.printf "%d | %s\n" (if conformant h then 1 else 0)
               (String.concat ";" (List.map show_out outs))
         | _ -> failwith ("bad line: " ^ line)
       end
